@@ -297,6 +297,22 @@ func TestStrictHistories(t *testing.T) {
 			hist = append(hist, op{Kind: "add", Path: "/", E: &entry{Ref: "", Meta: meta}})
 			uni = append(uni, "/")
 		}
+		// every 8th history: sibling paths below one directory whose entries carry long
+		// descriptions, so that one manifest node serialises to 100..600 KB (more than a chunk)
+		heavy := i%8 == 5
+		perEntry := 0
+		if heavy {
+			uni = nil
+			nsib := 8 + rng.Intn(23)
+			for k := 0; k < nsib; k++ {
+				uni = append(uni, fmt.Sprintf("docs/%c%d.txt", 'A'+k, rng.Intn(100)))
+			}
+			perEntry = (100000 + rng.Intn(500000)) / nsib
+			if perEntry > 40000 {
+				perEntry = 40000
+			}
+			run.Stat("heavy_metadata_histories", 1)
+		}
 		prefs := prefixesOf(uni)
 		bad := false
 		check := func(m manifest.Interface, after string) {
@@ -316,12 +332,18 @@ func TestStrictHistories(t *testing.T) {
 			}
 		}
 		n0 := 3 + rng.Intn(14)
+		if heavy {
+			n0 = 2 * len(uni)
+		}
 		for k := 0; k < n0 && !bad; k++ {
 			p := uni[rng.Intn(len(uni))]
 			if p == "/" {
 				continue
 			}
 			e := randEntry(rng, s.refLen)
+			if heavy {
+				e.Meta = map[string]string{"Content-Type": "text/plain", "Description": strings.Repeat(fmt.Sprintf("%05d ", rng.Intn(100000)), perEntry/6)}
+			}
 			if _, mapped := model[p]; mapped {
 				if e.Meta == nil { // overwrite always carries metadata in strict histories
 					e.Meta = map[string]string{"Content-Type": "text/plain"}
@@ -393,10 +415,10 @@ func TestStrictHistories(t *testing.T) {
 				run.Stat("reload_observations", 1)
 			}
 		}
-		if i < 2 {
+		if i < 2 && !heavy {
 			run.Sample(map[string]interface{}{"encrypted": enc, "universe": uni, "history": hist})
 		}
-		c.End(fmt.Sprintf("strict/ops=%d/stores=%d/uni=%d/enc=%v/ow=%d", len(hist)/4*4, stores, len(uni)/4*4, enc, overwrites/2*2), len(hist) >= 4)
+		c.End(fmt.Sprintf("strict/ops=%d/stores=%d/uni=%d/enc=%v/ow=%d/heavy=%v", len(hist)/4*4, stores, len(uni)/4*4, enc, overwrites/2*2, heavy), len(hist) >= 4)
 	}
 }
 
